@@ -259,6 +259,7 @@ def _pair_loops(S, with_cell):
                         z3.Select(R.cols[0], q) == z3.Select(R.cols[0], r), z3.Select(R.cols[1], q) == z3.Select(R.cols[1], r)), q == r)),
               clause='each pair once')
         S.add_canary(I, "%s/canary#%d" % (tag, i), [h for h in p.pc if not z3.is_quantifier(h)])
+        S.add_probe(I, "%s/probe/hypotheses-consistent#%d" % (tag, i), p.pc)
     if nret == 0:
         raise OutOfSubset("no returning path of detect_bonds")
     S.add_interp_obligations(I)
